@@ -665,7 +665,45 @@ impl<'a> Body<'a> {
         }
         // a closure comparator is replaced by the opaque function the unit names for it (its text is pinned by hash): the
         // selection contract LS does not depend on it, the ordering it induces is lane K's business
-        let cmp_ts: TokenStream = if let Expr::Closure(_) = &cmp {
+        let lift_spec = self.pipeline_opt("pipeline_cmp_fn");
+        let cmp_ts: TokenStream = if let (Expr::Closure(cc), Some(spec)) = (&cmp, &lift_spec) {
+            // R12b: the comparator closure is lifted into a named function `NAME(T1, T2)` (unit file) with the closure's own
+            // parameter names and body; rustc validates the parameter types
+            let (name, tys) = spec.split_once('(').unwrap_or_else(|| fail("bad pipeline_cmp_fn: NAME(T1, T2) expected"));
+            let tys = tys.trim().strip_suffix(')').unwrap_or(tys);
+            let tys: Vec<&str> = tys.split(if tys.contains(';') { ';' } else { ',' }).map(|t| t.trim()).collect();
+            if cc.inputs.len() != 2 || tys.len() != 2 {
+                fail("R12b: a comparator closure has two parameters");
+            }
+            let mut params = TokenStream::new();
+            let mut binds = TokenStream::new();
+            for (n, (pat, ty)) in cc.inputs.iter().zip(tys.iter()).enumerate() {
+                let t: Type = syn::parse_str(ty).unwrap_or_else(|e| fail(&format!("bad pipeline_cmp_fn type: {e}")));
+                match pat {
+                    Pat::Ident(pi) => { let x = &pi.ident; params.extend(quote!(#x: #t,)); }
+                    other => {
+                        // a destructuring parameter becomes a named parameter plus `let PAT = name;`
+                        let x = ident(if n == 0 { "__a" } else { "__b" });
+                        params.extend(quote!(#x: #t,));
+                        binds.extend(quote!(let #other = #x;));
+                    }
+                }
+            }
+            let fname = ident(name.trim());
+            let body = &cc.body;
+            let mut f: ItemFn = syn::parse2(quote!( pub fn #fname(#params) -> Ordering { #binds #body } )).unwrap_or_else(|e| fail(&format!("R12b: {e}")));
+            {
+                let mut inner = Body::new(self.unit, self.log, name.trim().to_string(), self.lifted);
+                inner.visit_block_mut(&mut f.block);
+            }
+            self.lifted.push(Item::Fn(f));
+            // the call names the comparator by the unit struct of [opts.pipeline_cmp] (a value that specifications can mention);
+            // what the comparator computes is the lifted function's contract
+            let tag = self.pipeline_opt("pipeline_cmp").unwrap_or_else(|| fail("R12b: [opts.pipeline_cmp] must name the tag struct"));
+            let tag_id = ident(tag.split_whitespace().next().unwrap_or(""));
+            self.note("R12", format!("comparator closure of the selection lifted into fn {} (tag {})", name.trim(), tag_id));
+            quote!(#tag_id)
+        } else if let Expr::Closure(_) = &cmp {
             let text = cmp.to_token_stream().to_string();
             let h = format!("{:016x}", fnv64(&text));
             let spec = self.pipeline_opt("pipeline_cmp").unwrap_or_else(|| fail(&format!("R30: {} has a closure comparator; name an opaque stand-in in [opts.pipeline_cmp] (text hash {h})", self.func)));
